@@ -157,7 +157,7 @@ def coqc_file(path, timeout=600):
     rc, out, err = sh(['timeout', str(timeout), 'coqc'] + COQFLAGS + [path], timeout=timeout + 30)
     return rc, out + err
 
-_HEADER = 'Set Printing Width 10000000.\nSet Printing Depth 10000000.\nFrom Coq Require Import ZArith NArith List Bool String.\nImport ListNotations.\n'
+_HEADER = 'Set Printing Width 10000000.\nSet Printing Depth 10000000.\nFrom Coq Require Import ZArith NArith List Bool.\nImport ListNotations.\n'
 
 def _parse_bools(txt):
     m = re.search(r'=\s*(\[.*?\])\s*:\s*list bool', txt, re.S)
